@@ -26,7 +26,7 @@ def main(argv):
         from hvsim import core, orchestrator
 
         doc = core.from_jsonable(json.load(open(argv[2])))
-        res = orchestrator.replay_case(doc["case"])
+        res = orchestrator.replay_case(doc["case"], doc.get("prelude"))
         quiet = "--quiet" in argv
         if res.violation is None:
             print("NOT-REPRODUCED: the replay passes on this tree")
